@@ -190,6 +190,7 @@ func buildAccGraph(p *Prog, fn *ssa.Function, kind string) *accGraph {
 					rv = t.Results[0]
 				}
 			}
+			rv = unspillReturn(rv, b)
 			nd := g.nodes[b.Index]
 			nd.retv = rv
 			if phi, ok := rv.(*ssa.Phi); ok && phi.Block() == b && len(b.Preds) > 1 {
@@ -994,4 +995,29 @@ func lenIsStructural(v ssa.Value) bool {
 		return ok
 	}
 	return false
+}
+
+// unspillReturn: with deferred calls go/ssa spills named results into Alloc cells and returns a load of the
+// cell; recover the value stored into the cell in the returning block (or its unique predecessor chain).
+func unspillReturn(rv ssa.Value, b *ssa.BasicBlock) ssa.Value {
+	u, ok := rv.(*ssa.UnOp)
+	if !ok || u.Op != token.MUL {
+		return rv
+	}
+	cell, ok := u.X.(*ssa.Alloc)
+	if !ok {
+		return rv
+	}
+	for blk, hops := b, 0; blk != nil && hops < 4; hops++ {
+		for i := len(blk.Instrs) - 1; i >= 0; i-- {
+			if st, ok := blk.Instrs[i].(*ssa.Store); ok && st.Addr == cell {
+				return st.Val
+			}
+		}
+		if len(blk.Preds) != 1 {
+			break
+		}
+		blk = blk.Preds[0]
+	}
+	return rv
 }
